@@ -3,6 +3,10 @@
 import json, subprocess, sys
 
 CHECKS = {
+ "C14": dict(cat="exploration", tech="end-to-end equality monitor (crypto Equal / byte equality) over generated keys through every register format, version and encoding; panic monitor on every accessor over degraded objects",
+   text="Part 1: ~52k (quick) / ~2.6M (thorough) transports of RSA keys built from fresh primes (pools searched for exponent encodings starting 0x00/>=0x80 or with leading zero bytes), ECDSA keys on 4 curves with crafted scalars (1, n-1, 2^k, leading zeros, high bit), symmetric keys and secrets of every length 0..64, through every builder format x versions 1.0..1.4 (transparent EC representation switch at 1.3 asserted) x TTLV/XML/JSON, extracted with every accessor and compared mathematically. Part 2: 19 object kinds with every subset (<=12 nodes) or random subsets of optional parts removed, wrapped keys and format mismatches; all ~30 accessors are called on whatever still decodes and must not panic.",
+   note="Keys smaller than production size (256..1024-bit moduli) for speed; same code paths.", ref="§2 C14"),
+
  "C04": dict(cat="exploration", tech="differential monitors: library XML/JSON documents judged by four independent parsers and interpreted by the harness's own TTLV-XML/JSON readers against the reference layout; OASIS vectors and variations pushed through the library and compared semantically",
    text="A: 8k/270k generated messages + exhaustive scalar ladders (every enumeration value, mask classes incl. 0/unnamed/bit 31, ±2^52, control and markup characters, date edges) are encoded to XML and JSON; encoding/xml, encoding/json (all) and expat, Python json (sample/all) must accept them, the harness's own readers must extract exactly the reference tree, and the library must decode them to a message with byte-identical binary encoding. B: all 5318 vector messages (5176 of implemented operations) are read by the harness's reader, pushed through UnmarshalXML/MarshalXML, and the output must be the same tree (names vs numbers, hex vs decimal, instants compared semantically); 6k/200k value variations and corpus-derived optional-element removals likewise (rejections of the latter are counted, not judged).",
    note="xtree is an independent reading of the XML/JSON profile by the same author; optionality is inferred from the corpus per (operation, status, attribute, key format, credential type) context. TZ=UTC.", ref="§2 C04"),
